@@ -59,6 +59,10 @@ def get_stream(name, seed, tier, b, fp):
     done = os.path.join(d, "DONE")
     with Lock("stream-" + key):
         if os.path.exists(done):
+            try:
+                os.utime(d)                       # a stream in use counts as recent for prune_cache
+            except OSError:
+                pass
             return json.load(open(done))
         shutil.rmtree(d, ignore_errors=True)
         os.makedirs(d)
@@ -103,17 +107,31 @@ def get_stream(name, seed, tier, b, fp):
         return meta
 
 
-def prune_cache(keep=None, max_dirs=24):
+def prune_cache(keep=None, max_dirs=24, max_bytes=12 << 30):
     """stream caches are keyed by the fingerprints of /repo and /verif: every edit (and every seeded change) makes new
-    ones; only the most recent are kept so that the disk does not fill up"""
+    ones; only the most recent are kept (at most `max_dirs`, and at most `max_bytes` in total -- thorough-tier streams are
+    large) so that the disk does not fill up"""
     root = os.path.join(WORK, "cache")
     try:
         ds = sorted((d for d in os.listdir(root) if os.path.isdir(os.path.join(root, d))), key=lambda d: os.path.getmtime(os.path.join(root, d)), reverse=True)
     except OSError:
         return
-    for d in ds[max_dirs:]:
-        if d != keep:
-            shutil.rmtree(os.path.join(root, d), ignore_errors=True)
+    total = 0
+    for i, d in enumerate(ds):
+        p = os.path.join(root, d)
+        size = 0
+        try:
+            size = sum(os.path.getsize(os.path.join(p, f)) for f in os.listdir(p) if os.path.isfile(os.path.join(p, f)))
+        except OSError:
+            pass
+        total += size
+        try:
+            fresh = time.time() - os.path.getmtime(p) < 1800      # possibly still being read by a running check
+        except OSError:
+            fresh = False
+        if d != keep and (i >= max_dirs or total > max_bytes) and (not fresh or total > 3 * max_bytes):
+            total -= size
+            shutil.rmtree(p, ignore_errors=True)
 
 
 # ---------------------------------------------------------------- the two builds against each other (C19)
